@@ -64,6 +64,11 @@ func (f *frame) doCallVals(c *ssa.CallCommon, args []Val, st *State, pos token.P
 		f.safety("nilcall", st, fmt.Sprintf("(not (= %s 0))", fv.T), pos, "call of nil function value")
 	}
 	f.beforeCall(key, args, st, pos)
+	if key == "fmt.Sprintf" || key == "fmt.Fprintf" {
+		if v, ok := f.tryFmtCall(c, key, st); ok {
+			return v
+		}
+	}
 	con := g.W.db.Contracts[key]
 	if con != nil && !con.Inline {
 		res := f.applyContract(con, key, args, rt, st, pos, ci)
@@ -462,6 +467,18 @@ func (f *frame) applyContract(con *Contract, key string, args []Val, rt *types.T
 				g.assignArr(st.heap, m.arr, m.sort, fmt.Sprintf("(store %s %s (ite %s %s (select %s %s)))", a, m.idx, m.cond, hv, a, m.idx))
 			} else {
 				g.assignArr(st.heap, m.arr, m.sort, fmt.Sprintf("(store %s %s %s)", a, m.idx, hv))
+			}
+		}
+	}
+	// volatile ghost state is forgotten across every contracted call of package code
+	if !con.Stub || len(con.Modifies) > 0 {
+		listed := map[string]bool{}
+		for _, m := range mods {
+			listed[m.arr] = true
+		}
+		for _, name := range sortedKeys(g.W.volatile) {
+			if !listed[name] && (!con.Stub) {
+				g.havocArr(st.heap, name, g.W.volatile[name])
 			}
 		}
 	}
